@@ -1,5 +1,6 @@
 import BfeVerif.C44.Proofs
 import BfeVerif.C44.NegoProps
+import BfeVerif.C44.NegoServe
 /-!
   C44 — session resumption cannot be forged or used to bypass policy.  Property theorems only.
 
@@ -296,6 +297,34 @@ theorem C44_issue_then_resume_keeps {C : Crypto} (hl : Laws C) (key iv : List UI
   rw [C44_issue_stores_negotiated] at hst'
   subst hst'
   exact ⟨hv, hs, hm⟩
+
+/-! ## Resumption on a connection that presents another SNI -/
+
+/-- **The policy that a resumption must meet is the one of the SNI (and VIP) presented NOW.**  With the production rule map
+    as `Config.ServerRule`, a session — wherever and under whichever server name it was issued — is resumed on a connection
+    presenting `sni` only if its version is allowed by the grade of the rule configured for `sni`, and, when that rule
+    demands client certificates, only if the session carries them. -/
+theorem C44_resume_under_presented_sni (t : RuleTable Rule) (cfg : Config) (vip : Option String) (sni : String)
+    (h : Hello) (lk : Lookups) (p : Params)
+    (hs : serve t cfg vip sni h lk = .ok p) (hres : p.resume = true) :
+    GradeAllows (getRule t vip sni).grade p.vers ∧
+    ((getRule t vip sni).clientAuth = true → ∃ st, p.sess = some st ∧ st.hasCerts = true) := by
+  have hf : serverNameSetBeforeLookups = true := by decide
+  have hr : readClientHello cfg (some (getRule t vip sni)) h lk = .ok p := by
+    unfold serve nameSeenByLookups at hs; rw [hf] at hs; exact hs
+  refine ⟨(nego_version_upper hr).2.2, ?_⟩
+  intro hca
+  obtain ⟨v0, v, suite, _, _, ho⟩ := rch_ok hr
+  cases ho with
+  | resumed st hc hp =>
+    have c := checkForResumption_spec hc
+    have hcc := c.2.2.2.2
+    have hpol : clientAuthOf cfg (some (getRule t vip sni)) = requireAndVerifyClientCert := by
+      unfold clientAuthOf; simp [hca]
+    rw [hpol] at hcc
+    exact ⟨st, by rw [hp]; rfl, hcc.1 (Or.inr rfl)⟩
+  | full _ _ hp => rw [hp] at hres; cases hres
+  | fullNoExt _ _ hp => rw [hp] at hres; cases hres
 
 /-! Non-vacuity: a concrete history that resumes, and the forms of refusal. -/
 def xorC (ks : List UInt8) : Crypto :=
